@@ -719,10 +719,20 @@ func c01(c *hx.Ctx, w *world) {
 			wire = wire[:c.Rng.Intn(len(wire))]
 			how += "+truncated"
 		case 3: // unknown field appended (varint field 15) or a second data field (last one wins)
-			if c.Rng.Intn(2) == 0 {
+			switch c.Rng.Intn(5) {
+			case 0:
 				wire = append(wire, 0x78, 0x05)
 				how += "+unknown-field"
-			} else {
+			case 1: // a second signature field: merged into the first (here it overrides hash_type)
+				wire = append(wire, 0x12, 0x02, 0x10, byte(1+c.Rng.Intn(3)))
+				how += "+second-signature-field-merged"
+			case 2: // an empty second signature field: merge changes nothing
+				wire = append(wire, 0x12, 0x00)
+				how += "+empty-second-signature-field"
+			case 3: // known field with the wrong wire type / length in a non-minimal varint / nested group
+				wire = append(wire, [][]byte{{0x08, 0x01}, {0x1a, 0x82, 0x00, 'y', 'y'}, {0x7b, 0x7c}, {0x7b, 0x08, 0x01, 0x7c}}[c.Rng.Intn(4)]...)
+				how += "+wrong-wiretype-or-nonminimal-length-or-group"
+			default:
 				wire = append(wire, 0x1a, 0x02, 'z', 'z')
 				how += "+second-data-field"
 			}
@@ -768,14 +778,14 @@ func c01(c *hx.Ctx, w *world) {
 		}
 		if panicked {
 			desc := map[string]any{"kind": "UnmarshalSignedMsg", "how": how, "wire_hex": hx.Hex(wire)}
-			c.Case(hx.App("Wire", "false", hx.Bytes(ctx), "SenderEmpty", "PubNone", "0", "SigNone", "[]", hx.Nat(99), hx.Nat(0)), desc)
+			c.Case(hx.App("WireRaw", hx.Bytes(wire), hx.Bytes(ctx), "SenderEmpty", "PubNone", "SigNone", hx.Nat(99), hx.Nat(0), "None"), desc)
 			c.Class("wire/panic")
 			c.Failf("c01-unmarshal-panic", desc, "UnmarshalSignedMsg panicked: %v", pv)
 			continue
 		}
 		if derr != nil {
 			desc := map[string]any{"kind": "UnmarshalSignedMsg", "how": how, "wire_hex": hx.Hex(wire), "decode_error": true}
-			c.Case(hx.App("Wire", "false", hx.Bytes(ctx), "SenderEmpty", "PubNone", "0", "SigNone", "[]", hx.Nat(11), hx.Nat(0)), desc)
+			c.Case(hx.App("WireRaw", hx.Bytes(wire), hx.Bytes(ctx), "SenderEmpty", "PubNone", "SigNone", hx.Nat(11), hx.Nat(0), "None"), desc)
 			c.Class("wire/decode-error")
 			continue
 		}
@@ -783,9 +793,10 @@ func c01(c *hx.Ctx, w *world) {
 		desc := w.msgDesc("UnmarshalSignedMsg+ExtractAndVerify", dm, ctx, r, how)
 		desc["wire_hex"] = hx.Hex(wire)
 		sg := dm.GetSignature()
-		c.Case(hx.App("Wire", "true", hx.Bytes(ctx), w.senderTerm(dm.GetFromPeerId()), w.pubTerm(sg.GetPubKey()),
-			hx.Z(int64(int32(sg.GetHashType()))), w.sigTerm(sg.GetSigData()), hx.Bytes(dm.GetData()),
-			hx.Nat(r.cls), hx.Nat(r.key)), desc)
+		dec := "(Some (" + hx.Bytes([]byte(dm.GetFromPeerId())) + ", " + hx.Bytes(sg.GetPubKey()) + ", " + hx.Z(int64(int32(sg.GetHashType()))) + ", " +
+			hx.Bytes(sg.GetSigData()) + ", " + hx.Bytes(dm.GetData()) + "))"
+		c.Case(hx.App("WireRaw", hx.Bytes(wire), hx.Bytes(ctx), w.senderTerm(dm.GetFromPeerId()), w.pubTerm(sg.GetPubKey()),
+			w.sigTerm(sg.GetSigData()), hx.Nat(r.cls), hx.Nat(r.key), dec), desc)
 		if r.accepted {
 			c.Class("wire/accepted")
 			c.Nontrivial("wire" + hx.Hex(wire))
